@@ -249,6 +249,29 @@ func respace(r *rng.R, m string) (string, string) {
 	}
 }
 
+// aliasSpelling respells a mnemonic in a way a lenient reader might accept: letter case, non-ASCII spaces.
+func aliasSpelling(r *rng.R, m string) (string, string) {
+	words := strings.Fields(m)
+	switch r.Intn(5) {
+	case 0:
+		words[0] = strings.ToUpper(words[0][:1]) + words[0][1:]
+		return strings.Join(words, " "), "capital-first"
+	case 1:
+		return strings.ToUpper(m), "all-caps"
+	case 2:
+		k := r.Intn(len(words))
+		words[k] = strings.ToUpper(words[k])
+		return strings.Join(words, " "), "one-word-caps"
+	case 3:
+		for i := range words {
+			words[i] = strings.ToUpper(words[i][:1]) + words[i][1:]
+		}
+		return strings.Join(words, " "), "title-case"
+	default:
+		return strings.Join(words, "\u00a0"), "nbsp"
+	}
+}
+
 func runOne(seed uint64, n int, out *bufio.Writer) error {
 	r := rng.New(seed*15485863 + uint64(n)*2750159 + 11)
 	root, err := os.MkdirTemp("/dev/shm", "vc04")
@@ -479,6 +502,39 @@ func runOne(seed uint64, n int, out *bufio.Writer) error {
 			w3.Stop()
 		}
 		stats["variant_"+vname]++
+
+		// ---- instance 5: an ALIAS spelling of the mnemonic (letter case, non-ASCII white space). BIP-39 words
+		// are lower case, so refusing the sentence is right; but IF the wallet accepts it, it must restore the
+		// SAME wallet (id, addresses, revealed mnemonic): acceptance and seed derivation must not disagree
+		// about what the words are.
+		w5, err := simx.Open(node, root+"/i5", pub)
+		if err != nil {
+			return err
+		}
+		alias, aname := aliasSpelling(r, mnemonic)
+		sum5, err := w5.WM.ImportWalletWithMnemonic(&keystore.WalletParams{Version: keystore.KeystoreVersionLatest, Mnemonic: alias,
+			Remarks: remark, PrivatePassphrase: []byte(pass), ExternalIndex: 0, InternalIndex: 0, AddressGapLimit: sim.Cur.GapLimit})
+		if err != nil {
+			stats["alias_refused_"+aname]++
+			w5.Stop()
+		} else {
+			stats["alias_accepted_"+aname]++
+			if !w5.WaitTasks(20 * time.Second) {
+				w5.Stop()
+				return fmt.Errorf("alias mnemonic import did not finish")
+			}
+			cnt, l5, err := observe(w5, sum5.WalletID)
+			if err != nil {
+				w5.Stop()
+				return err
+			}
+			sc := signCheck(w5, r, pass, l5, rf)
+			if mn5, _, err := w5.WM.GetMnemonic(sum5.WalletID, pass); err != nil || mn5 != mnemonic {
+				sc = fmt.Sprintf("revealed-mnemonic-differs:%v:%s", err, hx([]byte(mn5)))
+			}
+			emitI(out, n, "import-alias:"+aname, sum5.WalletID, cnt, l5, sc)
+			w5.Stop()
+		}
 
 		return nil
 	}
